@@ -397,7 +397,7 @@ func (x *Exec) collectWatch(fi *FuncInfo, fr *Frame, final *State) []watchTerm {
 		switch v.K {
 		case KInt, KBool:
 			add(tag+label, v.S)
-			if v.K == KInt && v.T != nil && depth < 2 {
+			if v.K == KInt && v.T != nil && depth < 3 {
 				if pt, ok := v.T.Underlying().(*types.Pointer); ok {
 					addStructAt(label, pt.Elem(), v.S, st, tag, depth)
 				}
